@@ -10,12 +10,12 @@ import vlib
 # which driver aspects are the *property itself evaluated on the implementation's output*
 # (oracle) and which are *model/implementation correspondence* for each property
 ORACLE = {
-    "C01": ["refusal", "rt", "trail", "reload", "counts", "propsback"],
+    "C01": ["refusal", "rt", "trail", "reload", "counts", "propsback", "load"],
     "C02": ["rt", "trail", "wf", "reload"],
-    "C04": ["refusal", "status", "rt", "trail", "reload", "counts", "offsets", "offpad", "propsback"],
+    "C04": ["refusal", "status", "rt", "trail", "reload", "counts", "offsets", "offpad", "propsback", "load"],
     "C05": ["offsets", "offpad", "pos", "trail", "propsback", "ef", "ef2", "dcf", "exits"],
     "C06": ["depth", "chunkrefs", "wf"],
-    "C20": ["refusal", "status", "rt", "trail", "reload", "counts", "offsets", "offpad", "propsback", "wf",
+    "C20": ["refusal", "status", "rt", "trail", "reload", "counts", "offsets", "offpad", "propsback", "load", "wf",
             "ef", "ef2", "dcf", "exits", "xspec"],
 }
 CORR = {
